@@ -489,7 +489,8 @@ func generate(s *Script, st *state, c gengo.Context, obj *types.TypeName, alias 
 
 // RunSpec is one gengo invocation.
 type RunSpec struct {
-	Dir         string              `json:"dir"` // working directory (module root)
+	Dir         string              `json:"dir"`           // module root
+	Cwd         string              `json:"cwd,omitempty"` // working directory relative to Dir ("" = the module root itself); entrypoints must then be import paths
 	Entrypoints []string            `json:"entrypoints"`
 	All         bool                `json:"all,omitempty"`
 	Force       bool                `json:"force,omitempty"`
@@ -532,7 +533,7 @@ func Run(rs RunSpec) (res RunResult) {
 	if err != nil {
 		panic("script: getwd: " + err.Error())
 	}
-	if err := os.Chdir(rs.Dir); err != nil {
+	if err := os.Chdir(filepath.Join(rs.Dir, filepath.FromSlash(rs.Cwd))); err != nil {
 		panic("script: chdir: " + err.Error())
 	}
 	defer os.Chdir(old)
